@@ -294,7 +294,7 @@ func genC14(ctx *Ctx) error {
 }
 
 func runC14(ctx *Ctx) error {
-	ctx.Res.Rule = "exhaustive table: framework(7) x strict(2) x first-to-last flag (chi/gorilla/std-http) x 0..3 per-operation middlewares x every short-circuit position x strict middleware count 0..2 x strict short-circuit position x 8 operation kinds (none, path, query, body, security, a second method of a path, a path below another operation's path, an OPTIONS operation), every third cell mounted under a base URL; one request per cell, trace of recording middlewares and stub; non-trivial = at least one middleware"
+	ctx.Res.Rule = "exhaustive table: framework(7) x strict(2) x first-to-last flag (chi/gorilla/std-http) x 0..3 per-operation middlewares x every short-circuit position x strict middleware count 0..2 x strict short-circuit position x 8 operation kinds (none, path, query, body, security, a second method of a path, a path below another operation's path, an OPTIONS operation), every third cell mounted under a base URL; one request per cell, trace of recording middlewares and stub; non-trivial = at least one middleware Session 9: every configuration passes through Validate and UpdateDefaults before Generate, as in the command-line tool."
 	rows, notes, err := c14Measure(ctx)
 	if err != nil {
 		return err
